@@ -201,8 +201,12 @@ Lemma case_meaning_scales :
   (forall (base eb : Z) (mn mx : Q) (l : Z) (L : list Q), lin_level_list base eb mn mx l L <->
    (StronglySorted Qlt L /\ forall v, In v L <-> exists k : Z, v = inject_Z k * lin_spacing base eb l /\ in_range mn mx v)%Q) /\
   (forall (tolv : Q -> Q) (base eb : Z) (mn mx : Q) (lv : levobs), lin_level_spec tolv base eb mn mx lv <->
-   (lv_st lv = 0%Z /\ lv_count lv = Z.of_nat (length (lv_ticks lv)) /\
-    exists L, lin_level_list base eb mn mx (lv_level lv) L /\ lv_count lv = Z.of_nat (length L) /\ obs_close tolv L (lv_ticks lv))%Q) /\
+   (exists L, lin_level_list base eb mn mx (lv_level lv) L /\
+    let c := Z.of_nat (length L) in
+    ((c <= 1000000)%Z -> lv_count lv = c) /\
+    ((1000000 < c)%Z -> (Z.abs (lv_count lv - Z.min c MAXINT) <= 2 + c / 1000000000)%Z) /\
+    ((lv_st lv = 0%Z /\ (c <= 1000000)%Z /\ obs_close tolv L (lv_ticks lv) /\ lv_count lv = Z.of_nat (length (lv_ticks lv)))
+    \/ (lv_st lv = 3%Z /\ (10000 < c)%Z /\ lv_ticks lv = [])))%Q) /\
   (forall (tolv : Q -> Q) (base eb : Z) (o : tickopts) (mn mx : Q) (st : Z) (a b : xreal), lin_nice_spec tolv base eb o mn mx st a b <->
    (st = 0%Z /\ exists ao bo x y, a = XFin ao /\ b = XFin bo /\ Qabs (ao - x) <= tolv x /\ Qabs (bo - y) <= tolv y /\
     let smn := fst (lin_start mn mx) in let smx := snd (lin_start mn mx) in
